@@ -31,6 +31,10 @@
 (*             "h2c" (HTTP/2 without TLS, and HTTP/1.1)                    *)
 (*   http2     -http2 (default true)     h2c   -h2c                        *)
 (*   hosthdr   -header "Host: virtual.example": the request's host          *)
+(*   stall     -output is a named pipe whose reader does not read for the   *)
+(*             first 400 ms: results are not taken, so every released hit   *)
+(*             needs a worker of its own (list: K times GET /size/100000/i, *)
+(*             -rate=200/s, -timeout=100ms, -duration=500ms, -max-workers=64)*)
 (*   trust     "na" | "insecure" | "rootcert" | "none"   (tls only)        *)
 (*   format    "http" | "json"                                             *)
 (*   lazy      -lazy: the list is read while attacking and its end stops   *)
@@ -60,18 +64,20 @@ Min(a, b) == IF a <= b THEN a ELSE b
 Base == [server |-> "plain", trust |-> "na", format |-> "http", lazy |-> TRUE, bad |-> "none", rate |-> 0, maxw |-> 1, workers |-> 1,
          name |-> "", hdr |-> FALSE, body |-> FALSE, chunked |-> FALSE, maxbody |-> -1, redirects |-> "default", keepalive |-> TRUE,
          timeout |-> "default", connectto |-> FALSE, laddr |-> FALSE, prom |-> FALSE, maxconn |-> 0, hosts |-> 1,
-         http2 |-> TRUE, h2c |-> FALSE, hosthdr |-> FALSE]
+         http2 |-> TRUE, h2c |-> FALSE, hosthdr |-> FALSE, stall |-> FALSE]
 
 Valid(c) ==
     /\ c.server \in {"plain", "tls", "unix", "tls2", "h2c"} /\ c.format \in {"http", "json"} /\ c.bad \in {"none", "late"}
     /\ (c.server \in {"tls", "tls2"}) = (c.trust # "na")
     /\ (c.h2c => c.server = "h2c") /\ c.trust \in {"na", "insecure", "rootcert", "none"}
-    /\ c.rate \in {0, 50, 200} /\ c.maxw \in {1, 3} /\ c.workers \in {1, 3}
+    /\ (c.stall => c = [Base EXCEPT !.stall = TRUE, !.lazy = FALSE, !.rate = 200, !.maxw = 64])
+    /\ c.rate \in {0, 2, 50, 200}          \* (2 per second: the duration is shorter than one pacing interval) /\ c.maxw \in {1, 3, 64} /\ (c.maxw = 64 => c.stall) /\ c.workers \in {1, 3}
     /\ c.maxbody \in {-1, 0, 2, 9} /\ c.redirects \in {"default", "nofollow"} /\ c.timeout \in {"default", "short"}
     /\ (c.prom => c.lazy /\ c.maxw = 1 /\ c.trust # "none" /\ c.bad = "none" /\ c.timeout = "default")   \* the waiting target must come last
     /\ (c.server = "unix" => ~c.connectto /\ ~c.laddr)
     /\ (c.connectto => c.server \in {"plain", "h2c"} /\ ~c.h2c)   \* -h2c swaps the transport: options applied after it are ignored (see DESIGN)
     /\ c.maxconn \in {0, 1, 2} /\ c.hosts \in {1, 2} /\ (c.hosts = 2 => c.connectto)
+    /\ (c.rate = 2 => ~c.lazy)                       \* (a list is read to its end only at the faster rates: lazy runs are bounded by 2 s)
     /\ (c.timeout = "short" => c.maxconn = 0)      \* hits queueing for a connection held by the slow one would time out too
 
 \* one factor at a time from the base, and from the eager base; pairs that interact
@@ -95,6 +101,8 @@ Single ==
           [Base EXCEPT !.server = "tls", !.trust = "insecure", !.http2 = FALSE],
           [Base EXCEPT !.server = "h2c", !.h2c = TRUE], [Base EXCEPT !.server = "h2c"], [Base EXCEPT !.server = "h2c", !.h2c = TRUE, !.lazy = FALSE, !.rate = 0, !.maxw = 3],
           [Base EXCEPT !.server = "h2c", !.h2c = TRUE, !.body = TRUE, !.hdr = TRUE, !.maxbody = 2],
+          [Base EXCEPT !.lazy = FALSE, !.rate = 2], [Base EXCEPT !.lazy = FALSE, !.rate = 2, !.maxw = 3, !.workers = 3],
+          [Base EXCEPT !.stall = TRUE, !.lazy = FALSE, !.rate = 200, !.maxw = 64],
           [Base EXCEPT !.hosthdr = TRUE], [Base EXCEPT !.hosthdr = TRUE, !.hdr = TRUE, !.format = "json"], [Base EXCEPT !.hosthdr = TRUE, !.connectto = TRUE],
           [Base EXCEPT !.maxconn = 1], [Base EXCEPT !.maxconn = 1, !.maxw = 3], [Base EXCEPT !.connectto = TRUE, !.hosts = 2],
           [Base EXCEPT !.lazy = FALSE, !.rate = 0, !.maxw = 3, !.maxconn = 1], [Base EXCEPT !.lazy = FALSE, !.rate = 0, !.maxw = 3, !.maxconn = 2],
@@ -107,12 +115,13 @@ ASSUME Cases = Single          \* every listed case is valid
 
 (*------------------------------ the target list ------------------------------*)
 SlowList(c) == c.rate = 0 /\ ~c.lazy
-PathOf(c, i) == IF SlowList(c) THEN "/slow/20/" \o ToString(i)
+PathOf(c, i) == IF c.stall THEN "/size/100000/" \o ToString(i)
+                ELSE IF SlowList(c) THEN "/slow/20/" \o ToString(i)
                 ELSE CASE i = 1 -> "/ok/1" [] i = 2 -> "/echo" [] i = 3 -> "/size/5" [] i = 4 -> "/redirect/1" [] i = 5 -> "/status/404"
                        [] i = 6 -> (IF c.timeout = "short" THEN "/slow/800" ELSE "/ok/6")
                        [] i = 7 -> (IF c.prom THEN "/promwait/6" ELSE "/ok/7")
-MethodOf(c, i) == IF ~SlowList(c) /\ i = 2 THEN "POST" ELSE "GET"
-OwnBody(c, i) == ~SlowList(c) /\ i = 2
+MethodOf(c, i) == IF ~SlowList(c) /\ ~c.stall /\ i = 2 THEN "POST" ELSE "GET"
+OwnBody(c, i) == ~SlowList(c) /\ ~c.stall /\ i = 2
 BodyOf(c, i) == IF OwnBody(c, i) THEN "own" ELSE IF c.body THEN "dflt" ELSE ""
 RespSize(c, i) == IF SlowList(c) THEN 4
                   ELSE CASE i = 1 -> 2 [] i = 2 -> Len(BodyOf(c, 2)) [] i = 3 -> 5 [] i = 5 -> 1
@@ -187,8 +196,12 @@ CmdOK(c, o) ==
        /\ ~o.truncated                                                 \* (the harness logs at most 300 results: no case comes near)
        \* sequence numbers are 0..n-1, each once
        /\ {o.results[k].seq : k \in 1..Len(o.results)} = 0..(Len(o.results) - 1)
-       /\ \A k \in 1..Len(o.results) : o.results[k].kind = "hit" => ResultOK(c, o, o.results[k])
-       /\ \A j \in 1..Len(o.reqs) : RequestOK(c, o, o.reqs[j])
+       \* (in the stalled run a hit may well run into its 100 ms timeout: its results are not judged one by one)
+       /\ (~c.stall => \A k \in 1..Len(o.results) : o.results[k].kind = "hit" => ResultOK(c, o, o.results[k]))
+       /\ (~c.stall => \A j \in 1..Len(o.reqs) : RequestOK(c, o, o.reqs[j]))
+       \* while nobody takes results every released hit occupies a worker: with fewer than max-workers busy it still starts at once
+       \* (o.early = requests the server saw begin within 350 ms of the first one; two thirds of what the pacer released, at least)
+       /\ (c.stall => 3 * o.early >= 2 * Min(c.maxw, (c.rate * 350) \div 1000))
        \* how many hits
        /\ IF c.lazy
           THEN \* the list is attacked once, entry by entry, then its end (or the malformed entry) stops the attack
@@ -199,17 +212,17 @@ CmdOK(c, o) ==
                /\ (c.maxw = 1 => \A k \in 1..K : Hits(o)[k].idx = k /\ Hits(o)[k].seq = k - 1)
           ELSE /\ Ends(o) = <<>>
                /\ Len(Hits(o)) >= 1
-               /\ (c.rate > 0 => Len(Hits(o)) <= (c.rate * DurMs) \div 1000 + 1)
+               /\ (c.rate > 0 => Len(Hits(o)) <= (c.rate * (IF c.stall THEN 500 ELSE DurMs)) \div 1000 + 1)
                /\ (c.maxw = 1 => \A k \in 1..Len(Hits(o)) : Hits(o)[k].idx = ((Hits(o)[k].seq) % K) + 1)
        \* -max-workers bounds what the server sees at once; with an unlimited rate and slow answers the capacity is used
        \* (a request the client gave up on is still running in the server: cases with a timeout are left out)
-       /\ (c.timeout = "default" => MaxConc(o) <= c.maxw)
+       /\ (c.timeout = "default" /\ ~c.stall => MaxConc(o) <= c.maxw)
        /\ (SlowList(c) /\ Reaches(c) /\ Len(Hits(o)) >= 3 * c.maxw => MaxConc(o) = Capacity(c))
        \* -max-connections bounds what one host sees at once
        /\ (c.maxconn > 0 /\ c.timeout = "default" /\ Proto(c) = "HTTP/1.1" => \A i \in 1..Len(o.reqs) : OverlapH(o, i) <= c.maxconn)
        \* -keepalive=false: a connection per request; one sequential worker with keep-alive stays on one connection
        /\ (~c.keepalive /\ Reaches(c) /\ c.server # "unix" /\ Proto(c) = "HTTP/1.1" => Cardinality({o.reqs[j].conn : j \in 1..Len(o.reqs)}) = Len(o.reqs))
-       /\ (c.keepalive /\ c.maxw = 1 /\ c.timeout = "default" /\ Reaches(c) /\ c.server # "unix" /\ Proto(c) = "HTTP/1.1" => Cardinality({o.reqs[j].conn : j \in 1..Len(o.reqs)}) = c.hosts)
+       /\ (c.keepalive /\ c.maxw = 1 /\ c.timeout = "default" /\ Reaches(c) /\ c.server # "unix" /\ Proto(c) = "HTTP/1.1" => Cardinality({o.reqs[j].conn : j \in 1..Len(o.reqs)}) = Cardinality({o.reqs[j].dialhost : j \in 1..Len(o.reqs)}))   \* one per host attacked
        \* -prometheus-addr: by the time the last target is answered the exporter has counted the six results before it
        /\ (c.prom => o.prom_count >= 6)
 =============================================================================
